@@ -5,7 +5,7 @@ from vf.lazy import ck, libx, common
 from vf.monitors import algos
 
 PROP = "C14"
-TECHNIQUE = ('runtime monitoring of the applicability predicate and of compute on a complete and an incomplete dataset for plain and randomly nested configurations; in-place completion history; both values of return_at_most_one_ranking; exact algorithms among the starters; sound must-refuse rule for nested configurations')
+TECHNIQUE = ('runtime monitoring of the applicability predicate and of compute on a complete and an incomplete dataset for plain and randomly nested configurations; in-place completion history; both values of return_at_most_one_ranking; exact algorithms among the starters; sound must-refuse rule for nested configurations; starters given in a tuple / set / frozenset / dict view')
 RULE = ("cases = (complete dataset, incomplete dataset) x scheme (S1 presets, S2 multiples, S4 perturbed, S5 look-alikes, "
         "S3) x algorithm configuration, plain and nested (BioConsert with each starter list, BioCo, ParCons with each "
         "auxiliary incl. BioCo and BioConsert[Borda]); the predicate is called on the real object, then the algorithm is "
